@@ -50,6 +50,14 @@ def changeScale (deletePVC : Bool) (cur : Option Int) (tpls : Nat) (expect : Int
       then pvcOrds ((old - expect).toNat + 2) (Gen.K8s.pvcInit old) expect else []
     ⟨some (Gen.K8s.newReplicas expect), true, ords.flatMap fun i => (List.range tpls).map fun t => (t, i)⟩
 
+/-- `ChangeScale(expect)` when the API server may reject the `Update` (conflict, any error): the
+    function returns that error before the volume-claim loop, so nothing else happens.  Second
+    component: an error is returned. -/
+def changeScaleE (deletePVC : Bool) (cur : Option Int) (tpls : Nat) (expect : Int) (updOk : Bool) : ScaleResult × Bool :=
+  if Gen.K8s.scaleNoop cur.isNone (cur.getD 0) expect then (⟨cur, false, []⟩, false)
+  else if updOk then (changeScale deletePVC cur tpls expect, false)
+  else (⟨cur, true, []⟩, true)
+
 /-- `Replicas()`: is the StatefulSet skipped because a rolling update is in progress? -/
 def skipped (replicas updated : Int) : Bool := Gen.K8s.rollingSkip replicas updated
 
